@@ -37,6 +37,23 @@ def tensor_leaves(scs):
     return out
 
 
+def prob_leaves(ops):
+    """ids of the tensor leaves that parameterise `probs` of Categorical / Binomial layers (directly or through operators)"""
+    from cirkit.symbolic import layers as L
+    frozen = set()
+    for c in ops:
+        for l in c.layers:
+            stack = [l]
+            while stack:
+                x = stack.pop()
+                if isinstance(x, (L.CategoricalLayer, L.BinomialLayer)) and x.probs is not None:
+                    for n in x.probs.nodes:
+                        frozen.add(id(n.deref() if isinstance(n, P.ReferenceParameter) else n))
+                if hasattr(x, "layer"):
+                    stack.append(x.layer)
+    return frozen
+
+
 def pipeline_operands(sc):
     out, stack = [], [sc]
     while stack:
@@ -116,18 +133,7 @@ def one_case(rep, cs, seed, i):
     w = max(evalc.width_of(c) for c in ops)
     # new parameter values, the same for every compilation (positive if the semiring needs it)
     newvals = {}
-    frozen = set()  # tensors used directly as probabilities must stay valid: not perturbed
-    from cirkit.symbolic import layers as L
-    for c in ops:
-        for l in c.layers:
-            stack = [l]
-            while stack:
-                x = stack.pop()
-                if isinstance(x, (L.CategoricalLayer, L.BinomialLayer)) and x.probs is not None:
-                    for n in x.probs.nodes:
-                        frozen.add(id(n.deref() if isinstance(n, P.ReferenceParameter) else n))
-                if hasattr(x, "layer"):
-                    stack.append(x.layer)
+    frozen = prob_leaves(ops)  # tensors used directly as probabilities must stay valid: not perturbed
     for p in leaves:
         cur = np.array(export.Exporter().leaf_value(p))
         if id(p) in frozen:
